@@ -92,3 +92,43 @@ def run(ctx):
                 bad.append(s[3])
     ctx.ob("W3.NULL-NEVER-EQUAL", "compare_values", not bad, "no constant Ordering::Equal: equality is always computed from two non-NULL values" if not bad else
            "compare_values manufactures Ordering::Equal as a constant (L%s): NULL = NULL evaluates to TRUE" % bad[0], cv.loc())
+    truthiness_with_null_test(ctx)
+
+
+def truthiness_with_null_test(ctx):
+    """W5 TRUTHINESS-NEEDS-NULL-TEST: value_to_bool maps NULL to false, which is right only for the final filter decision.  Wherever an
+    operator's *value* is derived from it (AND/OR in value context), the same match arm also has to look at the operand's NULL-ness
+    (a discriminant read of a Value); otherwise NULL AND q is answered FALSE instead of NULL and NOT turns it into TRUE."""
+    m = ctx.m
+    n = 0
+    for f in sorted(m.fns.values(), key=lambda f: f.id):
+        if not f.id.startswith(P) or f.kind == "closure":
+            continue
+        calls = [c for c in f.calls if c.name == P + "value_to_bool"]
+        if not calls:
+            continue
+        for k, c in enumerate(calls):
+            n += 1
+            # innermost match arm (target of a non-bool switch) that dominates the call
+            best = None
+            for d in f.dominators().get(c.bb, ()):
+                t = f.blocks[d]["t"]
+                if t[0] == "switch" and t[2] != "bool":
+                    for _, tgt in t[3]:
+                        if f.dominates(tgt, c.bb) and (best is None or f.dominates(best, tgt)):
+                            best = tgt
+                    if f.dominates(t[4], c.bb) and (best is None or f.dominates(best, t[4])):
+                        best = t[4]
+            reg = region(f, best) if best is not None else set(range(len(f.blocks)))
+            null_test = False
+            for b in reg:
+                for s in f.blocks[b]["s"]:
+                    if s[0] == "=" and s[2][0] == "disc":
+                        ty = f.locals[s[2][1][0]]
+                        if "types::value::Value" in ty and "Option<" not in ty.split("types::value::Value")[0][-8:]:
+                            null_test = True
+            ctx.ob("W5.TRUTHINESS-NEEDS-NULL-TEST", "%s#%d" % (f.id.rsplit("::", 1)[-1], k), null_test,
+                   "truthiness is taken in an arm that also inspects the operand's variant" if null_test else
+                   "%s decides an operator's value from value_to_bool (NULL counts as false) in an arm that never looks at the operand's NULL-ness: "
+                   "NULL AND q / NULL OR q lose their unknown result" % f.id.rsplit("::", 1)[-1], c.loc())
+    ctx.floor("W5.truthiness_sites", n, 2)
